@@ -52,6 +52,7 @@ TABLE = {
     96: ("all_pairs(option sweep)", "res", ()),
     97: ("eigenvector_centrality(option values)", "res", (S,)), 98: ("louvain(option values)", "res", ()),
     99: ("average_clustering(count_zeros=false)", "res", (S,)), 100: ("single_source(cutoff 0)", "res", ()),
+    101: ("modularity(foreign name swapped in)", "res", ()), 102: ("is_partition(foreign name swapped in)", "plain", ()),
 }
 
 
